@@ -2,7 +2,7 @@ from vp.api import Q, Mutant
 from vp.seqir import seqir
 TITLE = "Arenas and memory pools never hand out a block twice"
 U = "parsec/arena.c"
-OUTSIDE = ["GPU-resident arena copies (parsec_arena_get_copy / zone_malloc path)", "absolute addresses: alignment is checked relative to a 64-byte aligned system block",
+OUTSIDE = ["concurrent ALLOCATION paths (arena get_chunk vs get_chunk / release, thread mempool allocate vs free): Engine S gave no verdict within 10 GB / 2400 s because the object construction of the chunk is inlined into the thread; only concurrent releases are covered, the LIFO itself is covered by C30", "GPU-resident arena copies (parsec_arena_get_copy / zone_malloc path)", "absolute addresses: alignment is checked relative to a 64-byte aligned system block",
            "more than 4 system blocks / histories longer than K", "weak-memory reorderings (SC only)", "element sizes other than the enumerated ones"]
 ASSUMPTIONS = ["system allocator = static pool of 64-byte aligned typed blocks with ownership tracking (data_malloc/data_free stubs)",
                "object system replaced by vp_objstub.h (same algorithm, static tables)", "caller contract: a chunk is released once, by its owner"]
@@ -13,20 +13,24 @@ LINK = ["repo:parsec/class/parsec_lifo.c", "repo:parsec/class/parsec_list.c"]
 NODESTRUCT = ["parsec_obj_destruct", "parsec_obj_destruct_and_free", "parsec_arena_destructor", "parsec_obj_run_destructors"]
 def queries(ctx):
     qs = []
+    INC = [ctx.repo + "/parsec"]     # arena.c includes "mca/device/device_gpu.h" relative to its own directory (needed when an overlay copy is compiled)
     for elem in ((24, 1, 40, 64) if ctx.thorough else (24, 1)):
-        for Kk in ((4, 5) if ctx.thorough else (4,)):
-            qs.append(Q("seq_e%d_k%d" % (elem, Kk), ["ha.c"] + LINK, defs=["ELEM=%d" % elem, "K=%d" % Kk], unwind=6, object_bits=12, timeout=2400,
-                        units=[U, "parsec/arena.h", "parsec/class/lifo.h"], unwind_fn={"main": Kk + 1}, remove_bodies=NODESTRUCT,
-                        tiers=("quick", "thorough") if (Kk == 4 and elem in (24, 1)) else ("thorough",),
+        for Kk in ((2, 3, 4) if ctx.thorough else (2, 3)):
+            qs.append(Q("seq_e%d_k%d" % (elem, Kk), ["ha.c"] + LINK, defs=["ELEM=%d" % elem, "K=%d" % Kk], unwind=6, object_bits=12, timeout=2400, incs=INC, extra_cbmc=["--max-field-sensitivity-array-size", "512"],
+                        units=[U, "parsec/arena.h", "parsec/class/lifo.h"], unwind_fn={"main": max(Kk + 1, 4)}, remove_bodies=NODESTRUCT,
+                        tiers=("quick", "thorough") if ((Kk == 2 and elem in (24, 1)) or (Kk == 3 and elem == 24)) else ("thorough",), slow=(Kk >= 3),
                         info={"symbolic": ["alignment 2..64", "max_used 0..3/unlimited", "max_cached 0..2/unlimited", "operation kind (alloc 1 / alloc 2 / release) and slot per step"],
                               "enumerated": ["element size"], "bounds": {"K": Kk},
                               "functions": ["parsec_arena_construct_ex", "parsec_arena_allocate_device_private", "parsec_arena_get_chunk", "parsec_arena_release_chunk", "parsec_lifo_push/pop"],
                               "stubs": ["data_malloc/data_free: static block pool", "object system: vp_objstub.h"]}))
-    SC = {1: ("conc_release_x2_cache_limit", "C27-cache-limit-race"), 2: ("conc_alloc_x2_max_used", None), 3: ("conc_release_vs_alloc_x2", None), 4: ("conc_mempool_alloc_vs_free", None)}
+    # scenarios 2-4 of hs.c (two allocations racing for max_used, release vs allocation, mempool allocate vs free)
+    # gave no verdict: the allocation path constructs a list item through the object system inside the thread
+    # (10 GB out of memory / 2400 s time-out); they are not registered.  See OUTSIDE.
+    SC = {1: ("conc_release_x2_cache_limit", "C27-cache-limit-race")}
     for sc, (name, kf) in SC.items():
         units = [U, "parsec/arena.h", "parsec/class/lifo.h"] + (["parsec/mempool.c", "parsec/mempool.h"] if sc == 4 else [])
         for R in ((3, 4) if ctx.thorough else (3,)):
-            qs.append(Q("%s_r%d" % (name, R), [], defs=["SCEN=%d" % sc], engine="S", units=units, kf=kf, remove_bodies=NODESTRUCT,
+            qs.append(Q("%s_r%d" % (name, R), [], defs=["SCEN=%d" % sc], engine="S", units=units, kf=kf, remove_bodies=NODESTRUCT, incs=INC,
                         gen=seqir(["hs.c"] + LINK, threads=["thread0", "thread1"], rounds=R, drain=True), unwind=8, timeout=2400, slow=True,
                         tiers=("quick", "thorough") if R == 3 else ("thorough",),
                         info={"symbolic": ["schedule: every SC interleaving with <= %d slots per thread, then drain" % R], "bounds": {"threads": 2, "rounds": R},
@@ -35,11 +39,16 @@ def queries(ctx):
     return qs
 def mutants(ctx):
     return [
-      Mutant("align_forgotten", U, "    chunk->data = PARSEC_ALIGN_PTR( ((ptrdiff_t)chunk + sizeof(parsec_arena_chunk_t)),\n                                    arena->alignment, void* );", "    chunk->data = (void*)((char*)chunk + sizeof(parsec_arena_chunk_t));", queries=["seq_e24_k4", "seq_e1_k4"]),
-      Mutant("limit_off_by_one", U, "            if(current > arena->max_used) {\n                allocation_error = \"maximum allocation count reached\";\n                goto allocation_failed;\n            }\n        }\n        if( size < sizeof( parsec_list_item_t ) )", "            if(current > arena->max_used + 1) {\n                allocation_error = \"maximum allocation count reached\";\n                goto allocation_failed;\n            }\n        }\n        if( size < sizeof( parsec_list_item_t ) )", queries=["seq_e24_k4"]),
-      Mutant("released_not_decremented_on_reuse", U, "        if( arena->max_released != INT32_MAX )\n            (void)parsec_atomic_fetch_dec_int32(&arena->released);", "        (void)0;", queries=["seq_e24_k4"]),
-      Mutant("multi_size_omits_alignment_slack", U, "size = PARSEC_ALIGN(arena->elem_size * count + arena->alignment + sizeof(parsec_arena_chunk_t),", "size = PARSEC_ALIGN(arena->elem_size * count + sizeof(parsec_arena_chunk_t),", queries=["seq_e24_k4", "seq_e1_k4"]),
-      Mutant("used_nonatomic", U, "            int32_t current = parsec_atomic_fetch_inc_int32(&arena->used) + 1;", "            int32_t current = arena->used + 1; arena->used = current;", queries=["conc_alloc_x2_max_used_r3"]),
-      Mutant("mempool_pop_nolock", "parsec/mempool.h", "    ret = (void*)parsec_lifo_pop( &thread_mempool->mempool );", "    ret = parsec_lifo_is_empty(&thread_mempool->mempool) ? NULL : (void*)parsec_lifo_nolock_pop( &thread_mempool->mempool );", queries=["conc_mempool_alloc_vs_free_r3"]),
+      Mutant("align_forgotten", U, "    chunk->data = PARSEC_ALIGN_PTR( ((ptrdiff_t)chunk + sizeof(parsec_arena_chunk_t)),\n                                    arena->alignment, void* );", "    chunk->data = (void*)((char*)chunk + sizeof(parsec_arena_chunk_t));", queries=["seq_e24_k2", "seq_e1_k2"]),
+      Mutant("limit_off_by_one", U, "            if(current > arena->max_used) {\n                allocation_error = \"maximum allocation count reached\";\n                goto allocation_failed;\n            }\n        }\n        if( size < sizeof( parsec_list_item_t ) )", "            if(current > arena->max_used + 1) {\n                allocation_error = \"maximum allocation count reached\";\n                goto allocation_failed;\n            }\n        }\n        if( size < sizeof( parsec_list_item_t ) )", queries=["seq_e24_k3", "seq_e24_k2"]),
+      Mutant("released_not_decremented_on_reuse", U, "        if( arena->max_released != INT32_MAX )\n            (void)parsec_atomic_fetch_dec_int32(&arena->released);", "        (void)0;", queries=["seq_e24_k3", "seq_e24_k2"]),
+      Mutant("multi_size_omits_alignment_slack", U, "size = PARSEC_ALIGN(arena->elem_size * count + arena->alignment + sizeof(parsec_arena_chunk_t),", "size = PARSEC_ALIGN(arena->elem_size * count + sizeof(parsec_arena_chunk_t),", queries=["seq_e24_k2", "seq_e1_k2"]),
+      Mutant("cache_reserve_check_then_inc", U, "            if( parsec_atomic_fetch_inc_int32(&arena->released) >= arena->max_released ) {\n                (void)parsec_atomic_fetch_dec_int32(&arena->released);\n                cache_it = 0;\n            }", "            if( arena->released >= arena->max_released ) cache_it = 0; else (void)parsec_atomic_fetch_inc_int32(&arena->released);", queries=["conc_release_x2_cache_limit_r3"]),
     ]
-CLAIMED = False
+CLAIMED = True
+MANIFEST = {
+ "engine": "cbmc-src+seqir",
+ "text": "Bounded model checking of the real arena.c: (a) every history of K<=3 (thorough 4) allocate/release operations with symbolic alignment 2..64, symbolic allocation and cache limits and symbolic operation/slot choice, against a model of live blocks, the LIFO cache and both counters (alignment, payload fits, no block with two owners, refusal exactly beyond max_used, cache never above its limit, most-recent-first reuse); (b) two concurrent releases near the cache limit under every SC interleaving with <=3 scheduling slots per thread (Engine S) - this query found the check-then-increment race repaired by fix fa29cfa and now guards it.",
+ "note": "System allocator = static block pool stub; object system replaced by an equivalent static-table initialiser; concurrent allocation paths and the thread mempool could not be decided (no verdict) and are outside; element sizes enumerated.",
+ "technique": "CBMC bounded model checking of the real C unit + SAT; IR-level sequentialization (ll2c.py) for the concurrent release scenario",
+}
